@@ -505,6 +505,35 @@ def rule_endgame_covers(ctx, res):
         if ws and snd:
             okw = True
     res.check(okw, 'FLOW', b.path, 'a candidate is marked queried once its end-game query was sent')
+    # the brute-force round is never skipped: the loop is unconditional, or the only condition guarding it is a flag that is never set
+    guards = set()
+    for p in s.paths:
+        sends = [e for e in p.effects if e[0] == 'call' and e[1] == 'socket::Socket::send']
+        if not sends:
+            continue
+        first = p.effects.index(sends[0])
+        for c in p.conds:
+            rel, a, b2, truth = literal(c)
+            if rel == 'bool' and is_param(root_of(a), 'self') and len(field_chain(a)) == 1:
+                guards.add((field_chain(a)[0], truth))
+    okg = True
+    why = ''
+    for fld, truth in guards:
+        ws = ctx.field_writes(r'^action::lookup::TableLookup$', fld)
+        mb = ctx.mut_borrows_of_field(r'^action::lookup::TableLookup$', fld)
+        # accepted: the guard requires the flag's initial value and nobody ever changes it
+        init = None
+        nb = ctx.co(L + 'new')
+        for agg in ctx.aggregates(adt='action::lookup::TableLookup', body=nb):
+            st = agg[2]
+            i = st['rv']['fields'].index(fld)
+            init = st['rv']['ops'][i].get('int')
+        if fld == 'in_endgame':
+            continue
+        if ws or mb or init is None or bool(init) != truth:
+            okg = False
+            why = 'the end-game queries are skipped depending on `%s`, which is written in %s' % (fld, sorted({x[0].path for x in ws}))
+    res.check(okg, 'WHO', b.path, 'the end-game round over all unqueried candidates is never skipped (any flag guarding it keeps its initial value)', detail=why, key='endgame-never-skipped')
 
 
 # ------------------------------------------------------------------------------------------------
@@ -678,6 +707,20 @@ def rule_cancel_safe(ctx, res):
     for st in sites:
         if st.body.path == b.path:
             res.check(only_via_edge(b, st.block, edges), 'DOM', b.path, 'a query timer is cancelled only when not in the end-game (the shared end-game timer is never cancelled by an answer)', site=st.where)
+    # a timer is cancelled only together with the removal of the query that owns it: the token comes out of the removed entry
+    okc = True
+    n = 0
+    for fn in (RECV_RESPONSE, RECV_TIMEOUT, START_ROUND, START_ENDGAME, RECV_FINISHED):
+        bb, ss = sym_of(ctx, res, fn)
+        for p in ss.paths:
+            for e in p.effects:
+                if e[0] == 'call' and e[1] and e[1].endswith('Timer::<T>::cancel'):
+                    n += 1
+                    tok = strip_transparent(e[2][1])
+                    rm = find_calls(tok, '::remove')
+                    if not (rm and self_field(rm[0][2][0], 'active_lookups')):
+                        okc = False
+    res.check(okc and n >= 1, 'PAIR', L + 'active_lookups', 'every cancelled timer token is taken out of the outstanding-query entry that is being removed (a stored query never loses its timer)', key='cancel-from-removed')
 
 
 def rule_timer_order(ctx, res):
